@@ -5,9 +5,9 @@ import "sort"
 // AllRules is the registry of rules by id.
 func AllRules() map[string]*Rule {
 	m := map[string]*Rule{}
-	for _, r := range []*Rule{
+	for _, r := range append([]*Rule{
 		ruleVoteGrant(),
-	} {
+	}, rulesStorage()...) {
 		m[r.ID] = r
 	}
 	return m
